@@ -88,6 +88,7 @@ namespace sqf::runtime
         std::shared_ptr<behavior> m_error_behavior;
         std::shared_ptr<sqf::runtime::value_scope> m_globals_value_scope;
         bool m_bubble_variable;
+        bool m_globals_value_scope_explicit;
         bool m_started;
         bool m_die;
         size_t m_value_stack_pos;
@@ -113,6 +114,7 @@ namespace sqf::runtime
             m_error_behavior(error_behavior),
             m_globals_value_scope(globals_scope),
             m_bubble_variable(true),
+            m_globals_value_scope_explicit(false),
             m_started(false),
             m_die(false)
         {}
@@ -245,6 +247,12 @@ namespace sqf::runtime
         sqf::runtime::instruction_set::iterator current() const { return m_instruction_set.begin() + m_position; }
         std::shared_ptr<sqf::runtime::value_scope> globals_value_scope() const { return m_globals_value_scope; }
         void globals_value_scope(std::shared_ptr<sqf::runtime::value_scope> scope) { m_globals_value_scope = scope; }
+        /// <summary>
+        /// Whether the namespace of this frame was selected explicitly (with-do).
+        /// Frames without explicit namespace run in the namespace of the scope they are called from.
+        /// </summary>
+        bool globals_value_scope_explicit() const { return m_globals_value_scope_explicit; }
+        void globals_value_scope_explicit(bool flag) { m_globals_value_scope_explicit = flag; }
 
         /// <summary>
         /// Moves current to next instruction.
